@@ -2,8 +2,8 @@
 import importlib
 
 PROPS = {
-    "C14": [("u_chkbuild", "quick"), ("u_corefloat", "quick"), ("u_loadpkg", "quick"), ("u_genphase", "quick"), ("u_depenv", "quick"), ("u_deprec", "quick"), ("u_stagegate", "quick")],
-    "C20": [("u_querytxt", "quick"), ("u_lowernames", "quick"), ("u_constrname", "quick"), ("u_qindex", "quick"), ("u_normty", "quick"), ("u_calleety", "quick"), ("u_complmeth", "quick")],
+    "C14": [("u_chkbuild", "quick"), ("u_corefloat", "quick"), ("u_loadpkg", "quick"), ("u_genphase", "quick"), ("u_depenv", "quick"), ("u_deprec", "quick"), ("u_stagegate", "quick"), ("u_sepdiag", "quick")],
+    "C20": [("u_querytxt", "quick"), ("u_lowernames", "quick"), ("u_constrname", "quick"), ("u_qindex", "quick"), ("u_normty", "quick"), ("u_calleety", "quick"), ("u_complmeth", "quick"), ("u_qderive", "quick")],
     "C18": [("u_derive", "quick")],
     "C02": [("u_gopkgs", "quick"), ("u_importname", "quick"), ("u_gotypedoc", "quick"), ("u_gotype", "quick"), ("u_envfield", "quick"), ("u_rttypes", "quick"), ("u_swbind", "quick"), ("u_dynvt", "quick"), ("u_dceblk", "quick"), ("u_dcelive", "quick"), ("u_varname", "quick"), ("u_arrset", "quick"), ("u_capt", "quick"), ("u_fieldnames", "quick"), ("u_posfields", "quick"), ("u_dynimpl", "quick"), ("u_dynorigin", "quick"), ("u_entryname", "quick"), ("u_fnshape", "quick"), ("u_imm", "quick"), ("u_dynreq", "quick"), ("u_goops", "quick"), ("u_deadfn", "quick")],
     "C13": [("u_discover", "quick"), ("u_topo", "quick"), ("u_diagord", "quick"), ("u_link", "quick"), ("u_loadpkg", "quick"), ("u_goimports", "quick"), ("u_hirorder", "quick"), ("u_uniqenum", "quick"), ("u_branchvar", "quick")],
@@ -19,7 +19,7 @@ PROPS = {
     "C15": [("u_art", "quick"), ("u_link", "quick"), ("u_deprec", "quick"), ("u_clilink", "quick")],
     "C09": [("u_dcefx", "quick"), ("u_ceffect", "quick"), ("u_dceblk", "quick"), ("u_ctrl", "quick"), ("u_letlow", "quick"), ("u_cexpr", "quick"), ("u_binop", "quick"), ("u_block", "quick"), ("u_matchentry", "quick"), ("u_anf", "quick"), ("u_anfmatch", "quick"), ("u_imm", "quick"), ("u_goops", "quick")],
     "C11": [("u_bp", "quick"), ("u_pratt", "quick"), ("u_strlit", "quick"), ("u_calllower", "quick"), ("u_tylower", "quick"), ("u_floatlit", "quick"), ("u_binlower", "quick")],
-    "C04": [("u_mls", "quick"), ("u_input", "quick"), ("u_pcore", "quick"), ("u_tree", "quick"), ("u_kind", "quick"), ("u_grammar", "quick"), ("u_parse", "quick"), ("u_occurs", "quick"), ("u_tmono", "quick"), ("u_patlit", "quick"), ("u_annot", "quick"), ("u_dynvis", "quick"), ("u_link", "quick"), ("u_constrname", "quick"), ("u_placeholder", "quick"), ("u_report", "quick"), ("u_validty", "quick"), ("u_stagegate", "quick"), ("u_letlow", "quick")],
+    "C04": [("u_mls", "quick"), ("u_input", "quick"), ("u_pcore", "quick"), ("u_tree", "quick"), ("u_kind", "quick"), ("u_grammar", "quick"), ("u_parse", "quick"), ("u_occurs", "quick"), ("u_tmono", "quick"), ("u_patlit", "quick"), ("u_annot", "quick"), ("u_dynvis", "quick"), ("u_link", "quick"), ("u_constrname", "quick"), ("u_placeholder", "quick"), ("u_report", "quick"), ("u_validty", "quick"), ("u_stagegate", "quick"), ("u_letlow", "quick"), ("u_munify", "quick")],
     "C12": [("u_lex", "quick"), ("u_mls", "quick"), ("u_input", "quick"), ("u_pcore", "quick"), ("u_tree", "quick"), ("u_kind", "quick"), ("u_grammar", "quick"), ("u_parse", "quick"), ("u_loadpkg", "quick")],
 }
 
